@@ -164,17 +164,22 @@ def run(ctx):
             ex = M.Explore(mp, assume=assume, tries="ok")
             Tx = M.Terms(mp, blocks=ex.blocks)
             consts = []
-            polled = bool(ex.calls(lambda f: M.callee_str(f) == "posix::poll"))
-            for b in ex.blocks:
+            pollbbs = [b for b, _ in ex.calls(lambda f: M.callee_str(f) == "posix::poll")]
+            polled = bool(pollbbs)
+            # results that can be returned without having gone through poll(): their flags, evaluated under this configuration
+            nopoll = M.Explore(mp, assume=assume, tries="ok", stop=pollbbs).blocks - set(pollbbs)
+            for b in nopoll:
                 for s in mp.blocks[b]["stmts"]:
                     if s["k"] == "assign" and s["p"]["l"] == 0 and s["r"].get("variant") == "Ok":
-                        v = Tx.operand(s["r"]["ops"][0])
-                        if v[0] == "agg" and v[1] == "tuple" and all(const_of(x) is not None for x in v[2]):
-                            consts.append(tuple(const_of(x) for x in v[2]))
+                        v = M.noref(Tx.operand(s["r"]["ops"][0]))
+                        if v[0] == "agg" and v[1] == "tuple":
+                            consts.append(tuple(ex.eval(x) for x in v[2]))
+                        else:
+                            consts.append(("?", M.term_str(v)[:40]))
             key = "shortcut[deadline=%s,present=%s]" % ("Some" if dl else "None", "".join(map(str, pat)))
             if consts:
                 ok = dl == 0 and sum(pat) == 1 and consts == [pat] and not polled
-                detail = "returns the constant flags %s without polling; allowed only with no deadline and exactly one stream present, and only for that stream" % consts
+                detail = "returns the flags %s without polling; allowed only with no deadline and exactly one stream present, and only for that stream" % consts
             else:
                 ok = polled
                 detail = "goes through poll()"
